@@ -40,8 +40,18 @@ def scenario(g, i):
         extra += [{"p": "dangling_" + s, "k": "l", "t": "nowhere/" + s}, {"p": "ln_to_file", "k": "l", "t": "crlf.txt"}]
     if i % 5 == 2:
         extra += [{"p": "sp ace " + s + ".txt", "k": "f", "c": (s + "\n").encode(), "m": 0o644}]
+    if i % 3 == 1:
+        # names that need quoting in a unified-diff header or in a shell: quote, backslash, tab, apostrophe, leading dash, unicode
+        odd = ['we"ird ' + s + '.txt', "back\\slash_" + s + ".txt", "tab\t" + s + ".txt", "it's_" + s + ".md", "-dash " + s, "ünï_" + s + ".txt",
+               s + ' "q" dir']
+        nm = odd[(i // 3) % len(odd)]
+        if nm.endswith("dir"):
+            extra += [{"p": nm, "k": "d", "m": 0o755}, {"p": nm + "/in\\ner " + s + ".txt", "k": "f", "c": (s + " inside\n").encode(), "m": 0o644}]
+        else:
+            extra += [{"p": nm, "k": "f", "c": ("x " + s + " y\n").encode(), "m": 0o644}]
     seen, out = set(), []
-    for e in tree + r.sample(extra, r.randint(3, len(extra))):
+    forced = [e for e in extra if any(ch in e["p"] for ch in '"\\\t\'') or e["p"].startswith("-") or "ünï" in e["p"]]
+    for e in tree + r.sample(extra, r.randint(3, len(extra))) + forced:
         if e["p"] not in seen:
             seen.add(e["p"])
             out.append(e)
